@@ -17,8 +17,9 @@ MANIFEST = dict(
           "density keyword, '@dn' = natural_density keyword, keyword = attribute assignment; single-atom default; replace "
           "keeps every other count, gives the target n_src*p and leaves the source n_src*(1-p), changes the mass by "
           "n_src*p*(m_src-m_tgt), keeps mass/density (on the property's domain with no side condition), keeps an unknown "
-          "density unknown (repaired model; the code as it stands is refuted with the witness H2O, H->D), is the identity "
-          "for an absent source and for an atom substituted for itself (code refuted with the witness H2O@1, H->H).  Over R "
+          "density unknown, is the identity for an absent source and for an atom substituted for itself; the branch-by-branch "
+          "transcription of _isotope_substitution as it stands after repairs 7a61cac/b97d1be equals that model for every input "
+          "(C12_replace_code_agrees; the former failing inputs H2O, H->D and H2O@1, H->H are replayed in C12_replace_former_witnesses).  Over R "
           "(classical reals): the lattice expression a b c sqrt(1-cos^2-cos^2-cos^2+2 cos cos cos) 1e-24 with degrees and the "
           "defaulting rules, cubic and orthorhombic special cases, the packing formula (4 pi/3) sum r^3 n / pf 1e-24, the five "
           "packing factors, scaling and additivity in the counts.  Tie: formulas from strings (with tags and mixtures), nested "
